@@ -221,3 +221,43 @@ func VerifC26_keepsBalancedAnyGeneration() {
 	}
 	verifReached("c26-keeps-balanced-symgen")
 }
+
+// VerifC26_chain4: the smallest family in which an improving chain has THREE hops and may have
+// to pass through a member that holds fewer partitions than the one the search came from.
+// Four members in a line, topic ti shared by members i and i+1 only:
+//
+//	m0 {t0}   m1 {t0,t1}   m2 {t1,t2}   m3 {t2}
+//
+// Partition counts from a list of triples (both orientations of each lopsided one); every
+// partition has exactly one prior owner, chosen per path among its two subscribers (a valid,
+// conflict-free prior assignment); both topic numberings. The plan must be valid and not
+// improvable by any chain (reference: transitive closure over the returned plan).
+func VerifC26_chain4() {
+	triples := [][3]int32{{3, 1, 4}, {4, 1, 3}, {1, 1, 4}, {4, 1, 1}}
+	if verifThorough() {
+		triples = append(triples, [3]int32{2, 2, 4}, [3]int32{4, 2, 2}, [3]int32{3, 2, 3}, [3]int32{1, 2, 4}, [3]int32{4, 2, 1}, [3]int32{2, 1, 4}, [3]int32{4, 1, 2})
+	}
+	tr := triples[verifPick(len(triples))]
+	in := &verifGroupIn{nMembers: 4, topics: map[string]int32{}, fixedGens: true}
+	in.order = []string{"t0", "t1", "t2"}
+	if verifPick(2) == 1 {
+		in.order = []string{"t2", "t1", "t0"}
+	}
+	for _, t := range in.order {
+		in.topics[t] = tr[int(t[1]-'0')]
+	}
+	in.subs = [][]string{{"t0"}, {"t0", "t1"}, {"t1", "t2"}, {"t2"}}
+	in.claims = make([]map[string][]int32, 4)
+	in.gens = make([]int32, 4)
+	for m := range in.claims {
+		in.claims[m] = map[string][]int32{}
+	}
+	for ti, t := range []string{"t0", "t1", "t2"} {
+		for p := int32(0); p < tr[ti]; p++ {
+			owner := ti + verifPick(2) // member ti or ti+1
+			in.claims[owner][t] = append(in.claims[owner][t], p)
+		}
+	}
+	in.verifBalanceOptimal(in.eagerMembers(), "sticky (4-member chain)")
+	verifReached("c26-chain4")
+}
